@@ -360,7 +360,7 @@ def kani_playback(scratch_repo, harness, timeout):
                                                     '--output-format', 'terse', '--harness', harness, '--exact']
     rc, out, err, wall = run(['timeout', '-k', '10', str(timeout)] + cmd, cwd=scratch_repo)
     tests = []
-    for m in re.finditer(r'/// Check for `(\w+)`: "(.*?)"\n#\[test\]\nfn (\w+)\(\) \{\n\s*let concrete_vals: Vec<Vec<u8>> = vec!\[(.*?)\n\s*\];', out, flags=re.S):
+    for m in re.finditer(r'/// Check for `(\w+)`: "(.*?)"\s*\n\s*#\[test\]\s*\nfn (\w+)\(\) \{\s*let concrete_vals: Vec<Vec<u8>> = vec!\[(.*?)\n\s*\];', out, flags=re.S):
         kind, msg, name, body = m.groups()
         vals = []
         for vm in re.finditer(r'vec!\[([0-9, ]*)\]', body):
@@ -544,7 +544,7 @@ def main():
                         for f in c['failed']:
                             check_text = f"{f['description']} @ {f['function']} {os.path.basename(f['file'])}:{f['line']}"
                             refuted.append(dict(obligation=oid, function=h['fn'], check=check_text, engine='kani',
-                                                complete=h['complete'], harness=h['name'], file=h['file'],
+                                                complete=h['complete'], harness=h['name'], harness_id=c['harness_id'], file=h['file'],
                                                 replay=h.get('replay', 'shim'), bin=h.get('bin', False), contract=h['obligation']))
                         for uu in c['undecided']:
                             pass  # checks undetermined after a failure are expected
@@ -565,6 +565,8 @@ def main():
         violations, known_hits = [], []
         # group refuted by obligation
         grouped = {}
+        replays_done = {}
+        refuted.sort(key=lambda x: 0 if x['engine'] == 'kani' else 1)
         for x in refuted:
             grouped.setdefault(x['obligation'], []).append(x)
         for oid, items in grouped.items():
@@ -584,7 +586,7 @@ def main():
                        repo_tree_sha256=repo_hash, tier=a.tier)
             suffix = ' no-failing-input-found'
             if x0['engine'] == 'kani' and not a.no_replay:
-                tests, tail = kani_playback(sc.repo, x0['harness'], 1800)
+                tests, tail = kani_playback(sc.repo, x0['harness_id'], 1800)
                 fails = [t for t in tests if t['kind'] != 'cover']
                 rep['counterexamples'] = fails[:3]
                 rep['kani_playback_tail'] = tail if not fails else ''
@@ -594,14 +596,36 @@ def main():
                     rep['replay_harness'] = dict(file=x0['file'], harness=x0['harness'], bin=x0.get('bin', False), values=fails[0]['values'])
                     if any(v.get('outcome') == 'FAILED' for v in nr.values() if isinstance(v, dict)):
                         suffix = ''
+                replays_done[x0['harness']] = suffix
             elif x0['engine'] == 'verus':
                 pair = x0.get('pair')
-                rep['paired_kani_harness'] = pair
-                if pair and not a.no_replay:
-                    pr = run_pair(sc, pair, rep)
-                    if pr == 'refuted-and-replayed':
-                        suffix = ''
-                    elif pr == 'complete-pair-passes':
+                rep['paired_kani_harnesses'] = pair
+                if pair:
+                    ph = [h for h in registry.KANI if re.match(pair, h['name'])]
+                    missing = [h for h in ph if h['name'] not in kani_results]
+                    if missing and not a.no_replay:
+                        extra = run_pairs(sc, missing)
+                        kani_results.update(extra)
+                    got = [(h, kani_results.get(h['name'])) for h in ph]
+                    rep['paired_kani_results'] = {h['name']: (c and c['status']) for h, c in got}
+                    bad = [(h, c) for h, c in got if c and c['status'] == 'refuted']
+                    if bad:
+                        h, c = bad[0]
+                        rep['paired_failed_checks'] = c['failed'][:3]
+                        rep['see_also'] = f"kani:{h['name']} (same contract on the real function; carries the counterexample)"
+                        if replays_done.get(h['name']) == '':
+                            suffix = ''
+                        elif h['name'] not in replays_done and not a.no_replay:
+                            tests, tail = kani_playback(sc.repo, c['harness_id'], 1800)
+                            fails = [t for t in tests if t['kind'] != 'cover']
+                            rep['counterexamples'] = fails[:3]
+                            if fails and h.get('replay', 'shim') == 'shim':
+                                nr = native_replay(h['file'], h['name'], fails[0]['values'], h.get('bin', False))
+                                rep['native_replay'] = nr
+                                rep['replay_harness'] = dict(file=h['file'], harness=h['name'], bin=h.get('bin', False), values=fails[0]['values'])
+                                if any(v.get('outcome') == 'FAILED' for v in nr.values() if isinstance(v, dict)):
+                                    suffix = ''
+                    elif got and all(c and c['status'] == 'discharged' for h, c in got) and all(h['complete'] for h, c in got):
                         # the same contract holds on the real function for all inputs (complete Kani proof):
                         # the Verus failure is proof brittleness, not a violation.
                         undecided.append(dict(obligation=oid, engine='verus',
@@ -687,41 +711,16 @@ def main():
     sys.exit(0)
 
 
-def run_pair(sc, pair, rep):
-    """Run the Kani harness paired with a failed Verus obligation to look for a concrete input."""
-    h = next((x for x in registry.KANI if x['name'] == pair), None)
-    if not h:
-        return 'no-pair'
-    marker = os.path.join(sc.repo, '.cargo', 'config.toml')
-    if not os.path.exists(marker):
-        inj, err = inject_kani_modules(sc.repo, [h['file']])
+def run_pairs(sc, hs):
+    """Run Kani harnesses paired with a failed Verus obligation that were not part of this run."""
+    files = sorted({h['file'] for h in hs})
+    todo = [f for f in files if 'appended by /verif/check' not in open(os.path.join(sc.repo, f)).read()]
+    if todo:
+        inj, err = inject_kani_modules(sc.repo, todo)
         if inj is None:
-            return 'no-pair'
-    else:
-        # modules of this property already injected; make sure the pair's file is
-        txt = open(os.path.join(sc.repo, h['file'])).read()
-        if 'appended by /verif/check' not in txt:
-            inject_kani_modules(sc.repo, [h['file']])
-    kr = kani_run(sc.repo, [h['name']], 1, 1800, h.get('timeout', 900))
-    cls = classify_kani(kr['json'], kr['stdout'], [h['name']])
-    c = cls.get(h['name'])
-    rep['paired_kani_result'] = c and dict(status=c['status'], failed=c['failed'][:3])
-    if not c:
-        return 'no-result'
-    if c['status'] == 'discharged':
-        return 'complete-pair-passes' if h['complete'] else 'bounded-pair-passes'
-    if c['status'] == 'refuted':
-        tests, tail = kani_playback(sc.repo, h['name'], 1800)
-        fails = [t for t in tests if t['kind'] != 'cover']
-        rep['counterexamples'] = fails[:3]
-        if fails and h.get('replay', 'shim') == 'shim':
-            nr = native_replay(h['file'], h['name'], fails[0]['values'], h.get('bin', False))
-            rep['native_replay'] = nr
-            rep['replay_harness'] = dict(file=h['file'], harness=h['name'], bin=h.get('bin', False), values=fails[0]['values'])
-            if any(v.get('outcome') == 'FAILED' for v in nr.values() if isinstance(v, dict)):
-                return 'refuted-and-replayed'
-        return 'refuted'
-    return 'undecided'
+            return {}
+    kr = kani_run(sc.repo, [h['name'] for h in hs], min(NPROC, len(hs)), 1800, max(h.get('timeout', 900) for h in hs))
+    return classify_kani(kr['json'], kr['stdout'], [h['name'] for h in hs])
 
 
 def replay_file(path):
